@@ -43,7 +43,7 @@ pub fn profile(name: &str) -> Profile {
         "C09" => Profile { name: "C09", w: [40, 14, 6, 8, 24, 1, 6, 1, 0, 2], custom_pct: 15, reent_pct: 10, bcast_pct: 15, smooth_pct: 20, share_pct: 60, ..base },
         "C10" => Profile { name: "C10", w: [34, 28, 12, 10, 5, 0, 2, 2, 0, 4], custom_pct: 20, reent_pct: 15, bcast_pct: 20, smooth_pct: 25, share_pct: 70, shape: ShapeMode::Narrow, ..base },
         "C11" => Profile { name: "C11", w: [55, 16, 3, 8, 4, 0, 1, 0, 0, 8], custom_pct: 90, reent_pct: 25, bcast_pct: 0, smooth_pct: 0, share_pct: 80, shape: ShapeMode::Narrow, ..base },
-        "C12" => Profile { name: "C12", w: [50, 16, 8, 0, 5, 0, 0, 0, 0, 0], custom_pct: 15, reent_pct: 5, bcast_pct: 20, smooth_pct: 30, share_pct: 65, max_events: 30, ..base },
+        "C12" => Profile { name: "C12", w: [50, 16, 8, 0, 5, 4, 0, 0, 0, 0], custom_pct: 15, reent_pct: 5, bcast_pct: 20, smooth_pct: 30, share_pct: 65, max_events: 30, ..base },
         "C13" => Profile { name: "C13", w: [34, 18, 8, 6, 3, 22, 2, 1, 0, 5], custom_pct: 5, reent_pct: 0, bcast_pct: 25, smooth_pct: 40, share_pct: 60, ..base },
         "C17" => Profile { name: "C17", w: [48, 20, 8, 8, 5, 0, 1, 1, 0, 2], custom_pct: 15, reent_pct: 5, bcast_pct: 20, smooth_pct: 40, share_pct: 60, max_events: 40, ..base },
         "C14" => Profile { name: "C14", w: [10, 4, 4, 6, 2, 0, 3, 1, 70, 0], custom_pct: 5, reent_pct: 0, bcast_pct: 10, smooth_pct: 100, share_pct: 50, max_events: 90, shape: ShapeMode::Narrow, ..base },
